@@ -34,11 +34,13 @@ func ListenViaAgent(ctx context.Context, upstreamAddr, endpoint, id string, time
 		MinReconnectBackoff: 20 * time.Millisecond,
 		MaxReconnectBackoff: 200 * time.Millisecond,
 	}
+	before := registered(upstreamAddr, endpoint)
 	ln, err := up.Listen(ctx, endpoint)
 	if err != nil {
 		svcLn.Close()
 		return nil, err
 	}
+	awaitRegistered(upstreamAddr, endpoint, before)
 	u := &Upstream{ID: id, Endpoint: endpoint, Ln: ln}
 	u.srv = &http.Server{Handler: http.HandlerFunc(func(w http.ResponseWriter, r *http.Request) {
 		u.Requests.Add(1)
